@@ -330,10 +330,16 @@ def _load_schema_version_sub(xml_version, schema_namespace="", xml_folder=None, 
         hed_schema = load_schema(final_hed_xml_file, schema=schema, name=name)
     except HedFileError as e:
         if e.code == HedExceptions.FILE_NOT_FOUND:
-            # Cache all schemas if we haven't recently.
-            hed_cache.cache_xml_versions(cache_folder=xml_folder)
-            # 2. See if we got a copy from online
-            final_hed_xml_file = hed_cache.get_hed_version_path(xml_version, library_name, xml_folder)
+            final_hed_xml_file = None
+            if not xml_folder:
+                # The cache may be incomplete (e.g. filling it was interrupted): add any missing installed schemas
+                hed_cache.cache_local_versions(xml_folder)
+                final_hed_xml_file = hed_cache.get_hed_version_path(xml_version, library_name, xml_folder)
+            if not final_hed_xml_file:
+                # Cache all schemas if we haven't recently.
+                hed_cache.cache_xml_versions(cache_folder=xml_folder)
+                # 2. See if we got a copy from online
+                final_hed_xml_file = hed_cache.get_hed_version_path(xml_version, library_name, xml_folder)
             # 3. Finally check for a pre-release one
             if not final_hed_xml_file:
                 final_hed_xml_file = hed_cache.get_hed_version_path(xml_version, library_name, xml_folder,
